@@ -102,6 +102,9 @@ def oracle_partial(sw, sown, member, finished, reaped, direct):
 
 def one_subset(c, tmp, sw, sown, bs, nb, subset, pairs, metas, direct):
     run = D.CropRun(tmp, sw.kind)
+    # a second handle on the same crop, created BEFORE anything is sown and not touched until its reap below
+    from xyzpy.gen.cropping import Crop
+    stale = Crop(fn=run.fn(sw), name=run.name, parent_dir=run.parent)
     ops = [("sow", sown, bs, nb), ("grow", sorted(subset))]
     obs = [run.do(op) for op in ops]
     B = obs[0][1]
@@ -124,6 +127,17 @@ def one_subset(c, tmp, sw, sown, bs, nb, subset, pairs, metas, direct):
             c.violation("partial:" + key, msg, {**rep, "reaped": o[-1]})
     if run.listing() != before:
         c.violation("partial-reap-deleted-files", "allow_incomplete reap with default clean_up changed the crop directory", rep)
+    # the same partial reap through the handle that was created before the sow (it knows nothing but the name:
+    # everything it needs is in the settings file)
+    if o[0] == 0:
+        try:
+            so = ["nest", R.canon_nest(stale.reap_combos(allow_incomplete=True), sown.depth())]
+            if so != o[-1]:
+                c.violation("partial-reap-differs-between-handles", "a Crop object created before the sow reaps a "
+                            "different partial result than the sowing object", {**rep, "stale_handle": so, "sower": o[-1]})
+        except Exception as e:  # noqa
+            c.violation("partial-reap-raised-for-earlier-handle",
+                        f"a Crop object created before the sow cannot reap partially: {type(e).__name__}: {str(e)[:150]}", rep)
     # continue growing, then a full reap is exact
     for op in [("grow_missing",), ("reap", False, None)]:
         o = run.do(op); ops.append(op); obs.append(o)
